@@ -150,6 +150,12 @@ def sstep (valid noAccess : List String) (s : SSt) : Op → SSt × Option Out
     | none => (s, some .badArg)
     | some o => let (s', b) := sIsRunning s r o; (s', some (.bool b))
 
+/-- What `is_running()` FINDS when it says "recycled": the table holds the number `pid`, but as another
+    incarnation (start time) than `birth`, the one the object was built for. The statement's clause "an entry
+    whose PID was found recycled by is_running() is replaced by a fresh object" speaks about objects for which
+    an `is_running()` call was made in such a table. -/
+def Recycled (k : Kernel) (pid birth : Nat) : Prop := ∃ b, k.statStart pid = some b ∧ b ≠ birth
+
 def strace (valid noAccess : List String) (s : SSt) : List Op → List (Option Out)
   | [] => []
   | op :: ops => (sstep valid noAccess s op).2 :: strace valid noAccess (sstep valid noAccess s op).1 ops
